@@ -181,13 +181,18 @@ def rangeOfBody : Body → Option (Option RangeHdr)
 def slotShares (st : State) (si : String) : List (Nat × Bytes) :=
   (mutNums st si).filterMap (fun n => (lookupK (si, n) st.muts).map (fun s => (n, s.data)))
 
+/-- the header field is `struct.pack("32s", write_enabler)`: zero-padded / truncated to 32 bytes.  (A share
+created with an enabler of another length therefore never accepts that enabler again — only its padded or
+truncated form; clients always send 32-byte enablers.) -/
+def pad32 (e : Bytes) : Bytes := (e ++ List.replicate (32 - e.length) 0).take 32
+
 /-- `_evaluate_write_vectors` for one share -/
 def applyTW (enabler : Bytes) (lease : Lease) (si : String) (ms : List (Key × MutShare)) (p : Nat × TWV) :
     List (Key × MutShare) :=
   let k : Key := (si, p.1)
   if p.2.newLength = some 0 then eraseK k ms
   else
-    let cur : MutShare := (lookupK k ms).getD ⟨enabler, [], []⟩
+    let cur : MutShare := (lookupK k ms).getD ⟨pad32 enabler, [], []⟩
     setK k { cur with data := mutWritev cur.data p.2.writes p.2.newLength, leases := addOrRenew cur.leases lease } ms
 
 /-- `_collect_mutable_shares_for_storage_index`: some existing share of the slot has another write enabler -/
